@@ -432,7 +432,16 @@ class Rat:
         d = self - as_rat(o)
         if d.is_zero():
             return True
-        return _double_angle_zero(d, 3)
+        if len(d.num) > 600 or _WORK[1] is not None and _WORK[0] > _WORK[1]:
+            return False
+        # the two fall-backs are refinements of bounded cost: beyond the bound the forms count as different, as before
+        try:
+            with work_limit(400000 if _WORK[1] is None else max(0, min(400000, _WORK[1] - _WORK[0]))):
+                if _double_angle_zero(d, 3):
+                    return True
+                return _radical_zero(d, 2)
+        except WorkLimit:
+            return False
 
     def atoms(self):
         return p_atoms(self.num) | p_atoms(self.den)
@@ -603,6 +612,66 @@ def sqrt_of(r: Rat) -> Rat:
     a = "sqrt(%s)" % r.key()
     set_relation(a, r)
     return outside * Rat.atom(a)
+
+
+def p_exact_div(p, q):
+    """p / q for polynomials when the division is exact, else None (multivariate division by the leading monomial in the order
+    of the packed monomials, which is a lexicographic order on the exponent vectors)"""
+    if not q:
+        return None
+    lq = max(q)
+    cq = q[lq]
+    lq_items = dict(mono_items(lq))
+    rem = dict(p)
+    quo = {}
+    steps = 0
+    while rem:
+        steps += 1
+        if steps > 4000:
+            return None
+        lp = max(rem)
+        items = dict(mono_items(lp))
+        if any(items.get(a, 0) < e for a, e in lq_items.items()):
+            return None
+        m = lp - lq
+        c = rem[lp] / cq
+        quo[m] = quo.get(m, 0) + c
+        for mq, cqq in q.items():
+            mm = m + mq
+            v = rem.get(mm, 0) - c * cqq
+            if v:
+                rem[mm] = v
+            else:
+                rem.pop(mm, None)
+    return {m: c for m, c in quo.items() if c}
+
+
+def _radical_zero(d, depth):
+    """d == 0 after expressing a square root whose radicand is the quotient or the product of the radicands of two other square
+    roots occurring in d through those (principal roots: sqrt(a/b) = sqrt(a)/sqrt(b), sqrt(a*b) = sqrt(a)*sqrt(b) for a, b >= 0)"""
+    rads = [a for a in d.atoms() if a.startswith("sqrt(") and a in RADICAND]
+    if len(rads) < 2:
+        return False
+    for t in rads:
+        rt = RADICAND[t]
+        others = [a for a in rads if a != t]
+        for a in others:
+            ra = RADICAND[a]
+            cands = [(None, ra)]                     # t = a * (a perfect square is not looked for)
+            for b in others:
+                if b == a:
+                    continue
+                rb = RADICAND[b]
+                for form, val in (("quot", ra / rb), ("prod", ra * rb)):
+                    if (rt - val).is_zero():
+                        A, B = Rat.atom(a), Rat.atom(b)
+                        d2 = d.subs({t: A / B if form == "quot" else A * B})
+                        if d2.is_zero():
+                            return True
+                        if depth > 1 and (_radical_zero(d2, depth - 1) or _double_angle_zero(d2, 2)):
+                            return True
+            # t = a / (polynomial square) or a * (...): the quotient rt/ra a perfect square of a rational function is rare; skipped
+    return False
 
 
 def _double_angle_zero(d, depth):
